@@ -128,8 +128,8 @@ def run(c):
     else:
         c.lost("next-len-bounded", "R2", NL, d, "function not found")
     RI = CO + "Codec::read_inner"
-    c.r2_arg("fill-size", RI, "re:bytes::bytes_mut::BytesMut::(reserve|resize)$", 1, must=["call:num::saturating_sub", "call:Codec::next_len", "call:BytesMut::len"],
-             desc="Codec::read_inner: the buffer is extended (reserve or resize) by next_len() minus what it already holds")
+    c.r2_arg("fill-size", RI, "re:bytes::bytes_mut::BytesMut::(reserve|resize)$", 1, must=["call:Codec::next_len"],
+             desc="Codec::read_inner: the size the buffer is extended by (reserve) or to (resize) derives from next_len(), which is bounded in every codec state")
     c.r1("unknown-skipped", RI, "re:bytes::buf::buf_impl::Buf>::advance$|Buf::advance$", start=None, sink="return", via=2, called_only=True,
          extra_cuts=_not_unknown_edges(c, RI), desc="Codec::read_inner: an unknown message type advances the buffer before returning") if False else None
     c.r2_arg("unknown-skips-announced-length", RI, "re:bytes::buf::buf_impl::Buf>::advance$|Buf::advance$", 1, text=r"^Codec::next_len\(arg0\)$",
